@@ -436,23 +436,38 @@ Definition do_funnel (G : config) (P : pcfg) (o : op) (inp : finput) (ts : Z) (s
   | (s', _, _) => (s', finish_op G t)
   end.
 
+(* the wrapper from the call of the user method up to the next synchronisation point *)
+Definition drv_step (G : config) (st : state) (t : thread) (o : op) : state * thread :=
+  match nth_error (g_params G) (o_p o) with
+  | None => (st, finish_op G t)
+  | Some P =>
+      let '(h1, fi) := pre P (s_heap st) o in
+      match fi with
+      | None => (set_heap st h1, finish_op G t)
+      | Some inp => (set_heap st h1, park_at t (KAcqU inp))
+      end
+  end.
+(* the fake driver yields when a user method is entered; a write_ wrapper without user method has no such point *)
+Definition has_driver (G : config) (o : op) : bool :=
+  match o_k o with
+  | KWrite _ None => false
+  | KWrite v (Some _) =>
+      match nth_error (g_params G) (o_p o) with
+      | Some P => match dt_validate (p_dt P) v PNone with Ok _ => true | Err _ => false end   (* validated first *)
+      | None => false
+      end
+  | _ => true
+  end.
+
 (* one step of thread i; [locked] = the body of announceUpdate is enclosed by "with self.updateLock" *)
 Definition tstep (G : config) (locked : bool) (st : state) (ts : list thread) (i : nat) (t : thread)
   : option (state * thread) :=
   match t_pk t, t_ops t with
   | KStart, ops => Some (st, park_at t (first_park G ops))
   | KAcqA, o :: _ =>
-      if other_has (holds_A G (op_mod G o)) i 0 ts then None else Some (st, park_at t KDrv)
-  | KDrv, o :: _ =>
-      match nth_error (g_params G) (o_p o) with
-      | None => Some (st, finish_op G t)
-      | Some P =>
-          let '(h1, fi) := pre P (s_heap st) o in
-          match fi with
-          | None => Some (set_heap st h1, finish_op G t)
-          | Some inp => Some (set_heap st h1, park_at t (KAcqU inp))
-          end
-      end
+      if other_has (holds_A G (op_mod G o)) i 0 ts then None
+      else if has_driver G o then Some (st, park_at t KDrv) else Some (drv_step G st t o)
+  | KDrv, o :: _ => Some (drv_step G st t o)
   | KAcqU inp, o :: _ =>
       if locked && other_has (holds_U G (op_mod G o)) i 0 ts then None
       else if Z.eqb (explicit_ts o) 0 then Some (st, park_at t (KClock inp))
